@@ -102,3 +102,19 @@ Section ObjectLevel.
     destruct (impl_obj_go (map repl fs)) as [[out inv] es]. cbn [fst snd] in *. subst inv. cbn [Nat.ltb Nat.leb fst mval_json]. now rewrite I2.
   Qed.
 End ObjectLevel.
+
+(** a group's payload: when its fields run (their marks removed, nothing deferred below them, none failing) the model
+    delivers exactly the object of those keys - the [group_obj] of the object-level theorems *)
+Theorem group_payload_is_group_obj_lemma m' p tn (fs : list (string * bool * rnode)) (lab : string) (mark : string -> option string) :
+  let gfs := filter (fun f => match mark (fst (fst f)) with Some l => String.eqb l lab | None => false end) fs in
+  flat m' p gfs -> clean m' p gfs -> (forall f, In f gfs -> mark_at m' p (fst (fst f)) = None) ->
+  mval_json (fst (complete_impl false p (fst (split m' p (NObj tn gfs))))) = TObj (group_obj mark (map (field_json p) fs) lab).
+Proof.
+  intros gfs F C U. rewrite (initial_payload_is_initial_obj_lemma m' p tn gfs F C). f_equal.
+  unfold initial_obj. rewrite map_map.
+  assert (map (fun x => (fst (field_json p x), match mark_at m' p (fst (field_json p x)) with Some _ => TNull | None => snd (field_json p x) end)) gfs
+          = map (field_json p) gfs) as ->.
+  { apply map_ext_in. intros f Hf. cbn [field_json fst snd]. now rewrite (U f Hf). }
+  unfold group_obj, gfs. clear. induction fs as [|f fs IH]; [reflexivity|]. cbn [filter map]. unfold in_group at 1. cbn [field_json fst].
+  destruct (mark (fst (fst f))) as [l|]; [destruct (String.eqb l lab)|]; cbn [map]; now rewrite IH.
+Qed.
